@@ -25,9 +25,11 @@ package types
 //@ func (self ActionController) HandlePacket(ctx, packet) (err)
 //@   requires[base] packet != nil && packet.Action != nil && packet.TransferAttributes != nil && taOK(packet.TransferAttributes)
 //@   counts actcalls
-//@   modifies bank, events, packet.TransferAttributes.destinationCoin
+//@   sets act_ctrl = self
+//@   modifies bank, events, act_ctrl, packet.TransferAttributes.destinationCoin
 
 //@ func (self ForwardingController) HandlePacket(ctx, packet) (err)
 //@   requires[base] packet != nil && packet.Forwarding != nil && packet.TransferAttributes != nil && taOK(packet.TransferAttributes)
 //@   counts fwdcalls
-//@   modifies bank, events
+//@   sets fwd_ctrl = self
+//@   modifies bank, events, fwd_ctrl, out_n, out_kind, out_cctp, out_cctpc, out_hyp, out_send
